@@ -92,7 +92,16 @@ def setup_and_read(kind_, script, S, n):
     # engine works in molecules for stochastic kinds; for euler in the script's quantity unit (molecule here)
     raw = np.array(out.data.value, dtype=float)
     t = np.array(out.t.value, dtype=float)
+    cp = script.copy()
+    for holder, name in ((out.script, "the script stored in the trajectory"), (cp, "script.copy()")):
+        if holder.init_state_processing != script.init_state_processing or holder.rng_seed != script.rng_seed:
+            raise StoredScriptDiffers("%s has init_state_processing=%r seed=%r, the script that was run has %r / %r" % (
+                name, holder.init_state_processing, holder.rng_seed, script.init_state_processing, script.rng_seed))
     return t, raw
+
+
+class StoredScriptDiffers(Exception):
+    pass
 
 
 def floor_total(vals):
@@ -125,7 +134,12 @@ def run_case(case):
         if abs(a - b) > 1e-12 * abs(b):
             bad.append({"what": "state handed to the engine is not the described amount", "got": a, "expected": b, **ctx})
             break
-    t, x = setup_and_read(kind_, script, S, n)
+    try:
+        t, x = setup_and_read(kind_, script, S, n)
+    except StoredScriptDiffers as e:
+        return {"key": chash([idx, kind_, mode, fam]), "nontrivial": False, "counts": counts, "obs": [], "sample": None,
+                "bad": [{"what": "a copy of the script (stored in the trajectory / script.copy()) lost the processing mode or the seed",
+                         "error": str(e), **ctx}]}
     # "for a given seed, reproducible": the second run uses a script built afresh from the same arguments
     try:
         script_again = build(sd, idx)[8]
